@@ -97,6 +97,26 @@ CLAIMS = {
         "engine flow/CFG/effects",
         "DESIGN.md section 4 C17",
     ),
+    "C05": (
+        "Decides the layer-rule mechanism structurally: each LayerRule method delegates to the documented Rule method and are_named lowers a "
+        "layer to all of its module filters with their own regex flag (no late-bound closure); lookups keyed by all layers are total on the "
+        "regex conversion map; every judgement on concrete 'other' dependencies is made on the same-layer-filtered set; explicit pairs are "
+        "grouped by the object-side module's layer and a layer is satisfied by any realisation; the layer of a module is found by whole dotted "
+        "components. Does NOT decide verdicts over all partitions.",
+        "delegation table + guard implication (total lookups) + tag-flow (sanitiser on every judgement) + late-binding closure lint + F-NAME lint",
+        "C01 (module rules the layer rule is lowered to); engine flow/guards",
+        "DESIGN.md section 4 C05",
+    ),
+    "C10": (
+        "Decides structurally that external options cannot touch internal modules: every evaluation of an external exclusion predicate sits "
+        "under a guard establishing the value is not internal; the internal test compares whole dotted components; the module list is extended "
+        "only under the negated internal test; with externals excluded the module list is returned unchanged and imports are filtered by the "
+        "internal test; an excluded ancestor excludes its descendants; the scan pipeline keeps no state between scans. Does NOT decide equality "
+        "of internal sub-graphs across configurations (a relation between scans).",
+        "tag-flow (provenance of external patterns) + guard implication + F-NAME lint + effect analysis",
+        "engine flow analysis and guard formulas",
+        "DESIGN.md section 4 C10",
+    ),
 }
 
 NOT_BUILT_REASON = "static check not built yet in this session (planned rules: DESIGN.md section 4); no claim is made"
